@@ -15,8 +15,10 @@ using M3 = Eigen::Matrix3d; using V3 = Eigen::Vector3d; using M6 = Eigen::Matrix
 
 namespace {
 
-std::vector<double> rollyaw() { return {0, 0.3, -1.0, M_PI / 2, 2.0, -3.0, M_PI, 3.5, -5.5, 6.0}; }
-std::vector<double> pitches() { return {0, 0.2, -0.7, 1.2, -1.5, M_PI / 2 - 0.05, -(M_PI / 2 - 0.05)}; }
+bool g_th = false;   // thorough tier: denser lattices
+
+std::vector<double> rollyaw() { std::vector<double> v = {0, 0.3, -1.0, M_PI / 2, 2.0, -3.0, M_PI, 3.5, -5.5, 6.0}; if (g_th) for (double x : {1e-6, -0.3, 1.0, -M_PI / 2, -2.0, 3.0, -M_PI, -3.5, 4.7, 5.5, -6.0, 6.28}) v.push_back(x); return v; }
+std::vector<double> pitches() { std::vector<double> v = {0, 0.2, -0.7, 1.2, -1.5, M_PI / 2 - 0.05, -(M_PI / 2 - 0.05)}; if (g_th) for (double x : {1e-6, -0.2, 0.7, -1.2, 1.5, 0.45, -0.95}) v.push_back(x); return v; }
 
 M3 Rof(double r, double p, double y) { return SmartRotation3D(r, p, y).R(); }
 // Richardson-extrapolated central difference of the library's own R() wrt angle k
@@ -87,7 +89,7 @@ std::vector<Eigen::Affine3d> transforms() {
   for (auto& R : Rs) for (auto t : {V3(0, 0, 0), V3(0.3, -1.2, 2)}) { Eigen::Affine3d T = Eigen::Affine3d::Identity(); T.linear() = R; T.translation() = t; v.push_back(T); }
   return v;
 }
-std::vector<V3> attitudes() { std::vector<V3> v; for (double r : {0.0, 0.7, -2.5}) for (double p : {0.0, 0.3, -1.2, 1.4}) for (double y : {0.0, 0.4, -3.0}) v.push_back({r, p, y}); return v; }
+std::vector<V3> attitudes() { std::vector<V3> v; std::vector<double> rs = {0.0, 0.7, -2.5}, ps = {0.0, 0.3, -1.2, 1.4}, ys = {0.0, 0.4, -3.0}; if (g_th) { rs.push_back(3.0); rs.push_back(-0.4); ps.push_back(-0.6); ps.push_back(1.0); ps.push_back(-1.45); ys.push_back(2.2); ys.push_back(5.5); } for (double r : rs) for (double p : ps) for (double y : ys) v.push_back({r, p, y}); return v; }
 
 Eigen::Matrix<double, 6, 1> out6(const Pose3D& p) { Eigen::Matrix<double, 6, 1> o; o << p.position, p.orientation; return o; }
 
@@ -172,9 +174,10 @@ template <class S> void ls_cov(vf::Ctx& c, const char* tname) {
 
 }  // namespace
 
-uint64_t vf_ncases(const std::string& tier) { return rollyaw().size() + transforms().size() + 2; }
+uint64_t vf_ncases(const std::string& tier) { g_th = tier == "thorough"; return rollyaw().size() + transforms().size() + 2; }
 
 void vf_run(uint64_t idx, const std::string& tier, vf::Ctx& c) {
+  g_th = tier == "thorough";
   size_t nr = rollyaw().size(), nt = transforms().size();
   if (idx < nr) derivatives(c, rollyaw()[idx]);
   else if (idx < nr + nt) pose_cov(c, idx - nr);
@@ -183,6 +186,7 @@ void vf_run(uint64_t idx, const std::string& tier, vf::Ctx& c) {
 }
 
 std::string vf_describe(const std::string& tier) {
+  g_th = tier == "thorough";
   vf::JO o;
   o.vec("roll_yaw", rollyaw()).vec("pitch", pitches());
   o.str("finite_differences", "central differences with Richardson extrapolation (h=1e-4, 5e-5) of the library's own R() and operator*(Affine3d,Pose3D); tolerance 1e-7 absolute (rotation derivatives), 1e-6 relative (covariances)");
